@@ -55,5 +55,9 @@ func gen(prop string, seed uint64, tier, out string, count int) error {
 		}
 		return genPool(prop, seed, tier, out, count)
 	}
+	switch prop {
+	case "C07", "C08":
+		return genCollate(prop, seed, tier, out, count)
+	}
 	return fmt.Errorf("no generator for property %s", prop)
 }
